@@ -9,40 +9,19 @@ From CV Require Import Core.ReaderFacts Core.SafetyProofs Core.BuilderFacts Core
 From Coq Require Import ZifyBool ZifyNat.
 Ltac Zify.zify_post_hook ::= Z.div_mod_to_equations.
 Open Scope Z_scope.
-
-Lemma element_some a i sz : 0 <= a + i * sz <= 4294967288 -> element a i sz = Some (a + i * sz).
-Proof.
-  intros H. destruct (element a i sz) as [x|] eqn:E.
-  - apply element_spec in E. destruct E as [-> _]. reflexivity.
-  - apply element_none in E. unfold maxSegmentSize in E. lia.
-Qed.
-
-Lemma hd_ptr_strip1 x : hd_ptr (stripN [x]) = x.
-Proof. cbn [stripN]. destruct (is_null x) eqn:E; [|reflexivity]. destruct x; try discriminate. reflexivity. Qed.
+From CV Require Import Value.CanonMBytes.
 
 Section ListP.
 Context (c : config) (fx : cfix) (m : segs).
 Context (Hstrict : cfg_strict c = true) (Hfx : all_cfixed fx) (Hm : msg_ok m).
 
-Lemma den_ptrs_inv p vs : den true m 0 [] p (VList LPtr vs) ->
-  p_valid p = true /\ p_kind p = KList /\ p_bit p = false /\ p_comp p = false /\ p_size p = mkOS 0 1 /\
-  zlen vs = p_len p /\
-  (forall i, 0 <= i < p_len p ->
-     exists dep rl q rl' v, readPtr true m rl (p_seg p) (seg_of m p) (p_off p + 8 * i) dep = (Ok q, rl')
-       /\ den true m 0 [] q v /\ nthv vs i = VStruct [] [v]).
-Proof.
-  intros D. inversion D; subst.
-  - split; [assumption|]. split; [assumption|]. split; [assumption|]. split; [assumption|]. split; [assumption|].
-    split; assumption.
-  - match goal with H : prim_width ?w |- _ => destruct H as [->|[->|[->|[->| ->]]]]; discriminate end.
-Qed.
 
 Lemma list_ptr_case f : Q_ptr c fx m f -> forall data cap rl p vs w' cp,
   hinv data -> wf_ptr m p -> den true m 0 [] p (VList LPtr vs) ->
   canonical_list c fx (S f) (dstw data cap m rl) 0 p = KOk (w', cp) -> Qconcl m data (VList LPtr vs) w' cp.
 Proof.
   intros HQ data cap rl p vs w' cp Hi Hwf D H.
-  destruct (den_ptrs_inv _ _ D) as (Hv & Hk & Hb & Hc & Hsz & Lvs & K).
+  destruct (den_ptrs_inv m _ _ D) as (Hv & Hk & Hb & Hc & Hsz & Lvs & K).
   destruct (Hwf Hv) as (Hseg & Hobj). unfold wf_obj in Hobj. rewrite Hk, Hb, Hsz in Hobj.
   destruct Hobj as (Ho & Hlen & _ & Hbd). change (totalSize (mkOS 0 1)) with 8 in Hbd.
   assert (Hsok : zlen (seg_of m p) <= 4294967288) by (apply seg_of_ok; assumption).
